@@ -9,7 +9,7 @@ CHECKS = {
         technique='runtime round-trip monitor over a generated type catalogue, value-level oracle',
         level="exploration",
         quick=NATIVE,
-        thorough=NATIVE + [("fresh", 1.0, {"only": "fresh"})],
+        thorough=NATIVE + [("fresh", 1.0, {"only": "fresh"}), ("msan", 0.05)],
         rule="for every type expression of the catalogue (every leaf codec; every constructor x arity x rotating leaf; "
              "seeded compositions to depth 4; thorough adds fresh compositions from VERIF_SEED) boundary-biased values are "
              "generated at the Val level, encoded by the library and decoded again; a case is non-trivial and distinct when "
@@ -81,7 +81,7 @@ CHECKS = {
         technique="differential acceptance monitor: real Ok(v) implies strict-reference Ok(v) over structure-aware tampering",
         level="fault_enumeration",
         quick=NATIVE,
-        thorough=NATIVE,
+        thorough=NATIVE + [("fresh", 0.3, {"only": "fresh"})],
         rule="same hostile inputs as C05 (exhaustive <= 2 bytes, annotated-parse tampering, random); a case is non-trivial when the library accepted the input (only those can refute the property); distinct by (type, input); floor: accepted-and-agreed inputs in every tamper class",
         floors={"any": {"accepted_and_agreed": 1000, "accepted_and_agreed:rewrite_chunk_size": 100, "accepted_and_agreed:rewrite_count": 100,
                         "accepted_and_agreed:rewrite_length": 100, "accepted_and_agreed:rewrite_tag": 100, "accepted_and_agreed:rewrite_position": 20,
@@ -148,7 +148,7 @@ CHECKS = {
         note="Trusted: to_val of the containers; for hash containers the order written is taken from iterating the same instance.",
         technique="full source x target container matrix executed on generated element lists",
         level="exploration",
-        quick=NATIVE, thorough=NATIVE,
+        quick=NATIVE, thorough=NATIVE + [("msan", 0.1)],
         rule="a case = (element type, source container, target container, element list); non-trivial = source and target differ; distinct by (element type, source, target, bytes)",
         floors={"any": {"cells_ok": 20000, "pair:reference_unknown_length->Vec": 100, "pair:unsized_iterator->array": 20, "pair:HashSet->Vec": 100, "pair:Vec->HashSet": 100, "pair:pair_list->HashMap": 100, "pair:[u8;N]->Bytes": 50}},
     ),
@@ -175,7 +175,7 @@ CHECKS = {
         note="Trusted: the recording output (10 lines).",
         technique="differential monitor across sinks and across input implementations",
         level="exploration",
-        quick=NATIVE, thorough=NATIVE,
+        quick=NATIVE, thorough=NATIVE + [("fresh", 1.0, {"only": "fresh"})],
         rule="cases: (type, value) across 5 sinks + size calculator; (buffer, read sequence) across 3 inputs; distinct by (type, bytes) / (buffer, ops)",
         floors={"any": {"all_sinks_agree_and_size_exact": 10000, "input_sequences_agree": 10000}},
     ),
@@ -193,7 +193,7 @@ CHECKS = {
         note="Trusted: the reference encoder's prediction of which documented error applies. Known finding D15 (DateTime<FixedOffset> beyond the date range) is reported.",
         technique="panic monitor + error-variant oracle over exhaustive chars and boundary values",
         level="exploration",
-        quick=NATIVE, thorough=NATIVE,
+        quick=NATIVE, thorough=NATIVE + [("fresh", 1.0, {"only": "fresh"})],
         rule="chars: exhaustive (every scalar value is a distinct case); others: distinct by (type, value); non-trivial = all",
         floors={"any": {"unicode_scalars_checked": 1112064, "documented_error:LengthTooLarge": 12, "documented_error:UnknownFieldReferenceInEvolutionStep": 5, "encoded": 20000}},
         coverage_extra={"exhaustive_chars": True},
